@@ -98,7 +98,7 @@ T_Deploy == /\ Is("Deploy") /\ Consume
 T_Conn == /\ Is("Conn") /\ Consume
           /\ LET s == Ev.s IN
                /\ s \in Steps /\ StepEv(s)
-               /\ IF Ev.op = "set" THEN Free(s) /\ PostDeploy(s) /\ conn'[s] = "live"
+               /\ IF Ev.op = "set" THEN Free(s) /\ (PostDeploy(s) \/ PostDeployLive(s)) /\ conn'[s] = "live"
                   ELSE UNCHANGED vars
 T_Exec == /\ Is("Exec") /\ Consume
           /\ LET s == Ev.s IN
